@@ -200,6 +200,9 @@ class Unit:
                 obs[c.id] = dict(fn=path, kind='clause', props=c.props, text=c.text[:160])
             obs[path + '#builtin'] = dict(fn=path, kind='builtin', props=fc.builtin_props,
                                           text='overflow/index/shift/division/callee-precondition/panic/termination checks in ' + path)
+            if fc.trait_props:
+                obs[path + '#trait'] = dict(fn=path, kind='trait', props=fc.trait_props,
+                                            text='trait-level contract of the stand-in rand_core trait (stream projection / seeding spec) for ' + path)
         for name, props in self.lemmas.items():
             obs['lemma:' + name] = dict(fn='lemma:' + name, kind='lemma', props=props, text='spec-level lemma ' + name)
         return obs
@@ -350,26 +353,39 @@ def run_verus(unit, rlimit=200, threads=8, tag='', extra_args=(), timeout=3000):
         if kind is None or dg.get('code'):
             res.compile_errors.append(dg.get('rendered', msg)[:1500])
             continue
-        off = conv(prim[0]['byte_start']) if prim else None
-        what, ident = locate(off) if off is not None else ('none', None)
+        base = os.path.basename(path)
+        ours = lambda sp: os.path.basename(sp.get('file_name', '')) == base
         detail = dict(kind=kind, message=msg, rendered=dg.get('rendered', '')[:2500])
+        oid = 'unlocated'
+        p0 = prim[0] if prim else None
+        if p0 is not None and ours(p0):
+            what, ident = locate(conv(p0['byte_start']))
+        else:
+            what, ident = ('foreign', None)
+        secondary_fn = None
+        for sp in allsp:
+            if sp is p0 or not ours(sp):
+                continue
+            w2, id2 = locate(conv(sp['byte_start']))
+            if w2 == 'fn' and secondary_fn is None:
+                secondary_fn = id2
+            if w2 == 'clause':
+                detail.setdefault('other_clause', id2)
         if what == 'clause' and ident in obs:
             oid = ident
+        elif what == 'clause' and ident.startswith('trait.') or what == 'foreign':
+            # postcondition declared on a stand-in trait (or on a vstd trait such as PartialEq);
+            # the implementing function is in a secondary span
+            if secondary_fn:
+                oid = secondary_fn + '#trait'
+                detail['trait_clause'] = ident or 'vstd'
         elif what == 'fn':
             if ident.startswith('lemma:'):
                 oid = ident
             elif kind in ('overflow', 'division', 'shift', 'index', 'precondition', 'termination'):
                 oid = ident + '#builtin'
-                # name the callee clause for precondition failures
-                for s in allsp:
-                    if not s.get('is_primary'):
-                        w2, id2 = locate(conv(s['byte_start']))
-                        if w2 == 'clause':
-                            detail['callee_clause'] = id2
             else:
                 oid = ident + '#proof'
-        else:
-            oid = 'unlocated'
         res.failed.setdefault(oid, []).append(detail)
     if js is None and not res.compile_errors:
         res.compile_errors.append('verus produced no JSON; stderr tail:\n' + r.stderr[-2000:])
